@@ -129,6 +129,12 @@ func wholeFileVariants(src string, toks []RTok) []layoutVariant {
 		}
 		return t.Text
 	})})
+	out = append(out, layoutVariant{"multiline-block-comment-every-gap", -1, joinToks(toks, func(i int, t RTok) string {
+		if t.Kind != RSpace && t.Kind != REOF && t.Kind != RComment && i > 0 {
+			return "/* m\n   l */" + t.Text
+		}
+		return t.Text
+	})})
 	out = append(out, layoutVariant{"blank-every-gap", -1, joinToks(toks, func(i int, t RTok) string {
 		if t.Kind != REOF && i > 0 && t.Kind != RNewline {
 			return " " + t.Text
@@ -196,6 +202,7 @@ func siteVariants(toks []RTok) []layoutVariant {
 		default:
 			if i > 0 && toks[i-1].Kind != RNewline {
 				at("block-comment-before-token", i, "/* c */", true)
+				at("multiline-block-comment-before-token", i, " /* two\nlines */ ", true)
 				at("blank-before-token", i, " ", true)
 				at("tab-before-token", i, "\t", true)
 			}
@@ -265,7 +272,7 @@ func c12Corpus(c *Check) []CorpusProg {
 }
 
 func checkC12(c *Check) {
-	c.Rule = "metamorphic: corpus = the suite's own programs (extracted from tests/*.go), std/*.tsh, examples/*.tsh, generated programs and hand-written accepted/rejected programs; re-layout operators applied to the whole file (CRLF, 4 re-indentations, trailing blanks, comment or blank line at every break, block comment / blank in every gap, final newline, leading blank/comment lines) and singly at every applicable site (blank/comment line after each line break, trailing comment before each break, block comment / blank / tab before each token, removal of each blank) for small programs, sampled sites for large ones; a variant counts only if the reference lexer confirms the token list is preserved; verdict: same accept/reject and byte-identical scripts for both targets. Non-trivial = variant text differs from the original; distinct = SHA-256 of variant text"
+	c.Rule = "metamorphic: corpus = the suite's own programs (extracted from tests/*.go), std/*.tsh, examples/*.tsh, generated programs and hand-written accepted/rejected programs; re-layout operators applied to the whole file (CRLF, 4 re-indentations, trailing blanks, comment or blank line at every break, block comment (one-line and spanning two lines) / blank in every gap, final newline, leading blank/comment lines) and singly at every applicable site (blank/comment line after each line break, trailing comment before each break, block comment / blank / tab before each token, removal of each blank) for small programs, sampled sites for large ones; a variant counts only if the reference lexer confirms the token list is preserved; verdict: same accept/reject and byte-identical scripts for both targets. Non-trivial = variant text differs from the original; distinct = SHA-256 of variant text"
 	c.Assumptions = []string{"token preservation is decided by the reference lexer (newline runs collapsed, leading/trailing newlines ignored)", "imports of std files resolve next to the harness binary (copied from /repo/std at check time)"}
 	runProbes(c, bashProbeJudge)
 	corpus := c12Corpus(c)
@@ -331,6 +338,8 @@ func checkC12(c *Check) {
 						return "\t" + t.Text
 					case "block-comment-before-token":
 						return "/* c */" + t.Text
+					case "multiline-block-comment-before-token":
+						return " /* two\nlines */ " + t.Text
 					case "blank-before-token":
 						return " " + t.Text
 					case "tab-before-token":
